@@ -139,6 +139,15 @@ let compare_files hist_file obs_file =
             Hashtbl.replace keystat k (1 + try Hashtbl.find keystat k with Not_found -> 0);
             Printf.printf "{\"line\":%d,\"step\":%d,\"key\":\"%s\",\"expected\":\"%s\",\"observed\":\"%s\",\"history\":\"%s\"}\n"
               !lines i k ev (json_escape gv) hl
+          end;
+          (* order-insensitive view of the wake list, reported under key "ws" *)
+          if k = "w" && ev <> gv then begin
+            let sorted x = String.concat " " (List.sort compare (words x)) in
+            if sorted ev <> sorted gv then begin
+              incr mism;
+              Printf.printf "{\"line\":%d,\"step\":%d,\"key\":\"ws\",\"expected\":\"%s\",\"observed\":\"%s\",\"history\":\"%s\"}\n"
+                !lines i ev (json_escape gv) hl
+            end
           end) (obs_fields e)) exp_sel got
   done with End_of_file -> ());
   Printf.eprintf "{\"histories\":%d,\"steps_compared\":%d,\"mismatches\":%d}\n" !lines !steps !mism
